@@ -117,6 +117,31 @@ def generate(rng, tier):
     for i in range(no): cases.append(opp_case(rng.fork(10**5 + i)))
     cases += exhaustive(tier)
     for i in range(nh): cases.append(random_history(rng.fork(2 * 10**5 + i), ml))
+    cases += rounding_twins(tier)
+    return cases
+
+def rounding_twins(tier):
+    """the same grid total reached two ways - a sum of two grid angles and a directly constructed one - differs by
+    a few ulps in the remainder; subtracting one from the other (both orders, blade offsets 0 / 4 / 8 on either
+    side) must give exactly the predicted whole number of quarter turns: 0, 4 or 8, never a spurious turn"""
+    cases = []
+    offs = [(0, 0), (4, 0), (0, 4), (8, 0)] if tier == 'quick' else [(0, 0), (4, 0), (0, 4), (8, 0), (0, 8), (12, 4), (1000, 1004)]
+    for i in range(16):
+        P = Prog(); preds = []
+        for j in range(16):
+            for (ba, by) in offs:
+                a = grid_angle(P, i, ba); x = grid_angle(P, j, 0)
+                s_ = P.add('AAdd', (i + j) % 4, a, x)                       # total (i+j)/16 + ba, computed
+                k = i + j
+                y = grid_angle(P, k % 16, by + k // 16)                     # total (i+j)/16 + by, constructed
+                ts, ty = Fraction(k, 16) + ba, Fraction(k, 16) + by
+                if ts >= ty:
+                    d = P.add('ASub', j % 4, s_, y); t = ts - ty
+                    preds.append(('history_total', [d, ['#', t.numerator], ['#', t.denominator]]))
+                if ty >= ts:
+                    d = P.add('ADivA', j % 4, y, s_); t = ty - ts
+                    preds.append(('history_total', [d, ['#', t.numerator], ['#', t.denominator]]))
+        cases.append(Case(P, preds, 'rounding-twins'))
     return cases
 
 LEVEL_TEXT = ('Kernel-checked theorems about the model for ALL canonical angles: dual/undual/negate/conjugate add exactly 2 blades, differentiate/increment 1, integrate/decrement 3, '
